@@ -1,0 +1,50 @@
+//go:build verif
+
+package parser
+
+import (
+	"fmt"
+	gotoken "go/token"
+
+	"github.com/dcaiafa/loxlex/simplelexer"
+)
+
+// VerifUnescape exposes unescape to the verification harness. A panic is
+// returned as text.
+func VerifUnescape(lit []byte) (out []byte, panicked string) {
+	defer func() {
+		if e := recover(); e != nil {
+			panicked = fmt.Sprint(e)
+		}
+	}()
+	return []byte(unescape(lit)), ""
+}
+
+// VerifToken is one token of the front-end lexer.
+type VerifToken struct {
+	Type string `json:"type"`
+	Str  []byte `json:"str"`
+}
+
+// VerifTokens runs the front-end lexer (the one Parse uses) over data and
+// returns the LITERAL and CLASS_CHAR tokens, which are the ones the parser
+// actions hand to unescape.
+func VerifTokens(data []byte) (toks []VerifToken) {
+	fset := gotoken.NewFileSet()
+	file := fset.AddFile("verif.lox", -1, len(data))
+	lex := newLexer(simplelexer.Config{
+		StateMachine: new(_LexerStateMachine),
+		File:         file,
+		Input:        data,
+	})
+	for n := 0; n <= 4*len(data)+16; n++ {
+		tok, typ := lex.ReadToken()
+		if typ == EOF {
+			break
+		}
+		if typ == LITERAL || typ == CLASS_CHAR {
+			toks = append(toks, VerifToken{Type: _TokenToString(typ), Str: append([]byte(nil), tok.Str...)})
+		}
+	}
+	return toks
+}
